@@ -423,12 +423,37 @@ class FsExecutor(object):
         d = self.fds[fd]
         self.agent.fill(STATBUF, 80)
         r = self.agent.call('fd_filestat_get', unstable, fd, STATBUF)
+        st = None
         try:
             st = os.stat(d['path'])
         except OSError as e:
+            pass
+        if st is None or (d.get('ino') is not None and st.st_ino != d['ino']):
+            # the name no longer denotes the object the descriptor was opened on (removed / renamed away / replaced): the
+            # DESCRIPTOR still does - fstat semantics.  Size, link count and type are compared with fstat of the mirror descriptor
+            # (inode and device numbers differ between the two trees).
+            if d.get('mfd') is None or d['kind'] != 'file':
+                return
+            self.flags.add('filestat_of_renamed_or_unlinked_open_file')
+            if r != 0:
+                self.fail('filestat-stale', 'fd_filestat_get(%d) on an open file whose name was removed / replaced failed with %s; '
+                          'fstat() of the corresponding POSIX descriptor succeeds' % (fd, ename(r)))
+            mst = os.fstat(d['mfd'])
+            raw = self.agent.peek(STATBUF, 64)
+            if unstable:
+                ftype, nlink, size = struct.unpack('<B3xIQ', raw[16:32])
+            else:
+                ftype = raw[16]
+                nlink, size = struct.unpack('<QQ', raw[24:40])
+            mft = 3 if stat.S_ISDIR(mst.st_mode) else 4 if stat.S_ISREG(mst.st_mode) else 2 if stat.S_ISCHR(mst.st_mode) else \
+                1 if stat.S_ISBLK(mst.st_mode) else 0
+            if stat.S_ISCHR(mst.st_mode):
+                return      # the symlink to /dev/null was removed, not the device: link counts of the device node are not ours
+            if (ftype, nlink, size) != (mft, mst.st_nlink, mst.st_size):
+                self.fail('filestat-stale', 'fd_filestat_get(%d) on an open file whose name was removed / replaced reports type %d, '
+                          'nlink %d, size %d; fstat() of the corresponding POSIX descriptor gives type %d, nlink %d, size %d' % (
+                              fd, ftype, nlink, size, mft, mst.st_nlink, mst.st_size))
             return
-        if d.get('ino') is not None and st.st_ino != d['ino']:
-            return      # the name now denotes another object than the one the descriptor was opened on (removed / replaced since)
         if r != 0:
             self.fail('filestat', 'fd_filestat_get(%d) failed with %s' % (fd, ename(r)))
         self.compare_stat('fd_filestat_get', st, unstable)
